@@ -438,11 +438,29 @@ def build_input(pid, h, its, orders):
         gtoks = [x for x in (dgram_tok(g) for g in dgs) if x is not None]
         jit = rec.get("jitter", [])
         wake = rec.get("wake")
-        toks.append("I:%d:%d:%s:%s:%s:%s" % (
+        # interface of the last IPv4 multicast packet of the iteration (what the socket's
+        # IP_MULTICAST_IF is left at; same-iteration order across interfaces may come from a HashSet)
+        mif = None
+        for p in rec.get("sent", []):
+            if p.get("v4") and p.get("kind") == "mcast" and p.get("if") is not None:
+                mif = p["if"]
+        toks.append("I:%d:%d:%s:%s:%s:%s:%s" % (
             rec["d"], rec["now"], "n" if wake is None else str(wake),
             ".".join(str(x) for x in jit) if jit else "n",
-            ";".join(ctoks) if ctoks else "n", ";".join(gtoks) if gtoks else "n"))
+            ";".join(ctoks) if ctoks else "n", ";".join(gtoks) if gtoks else "n",
+            "n" if mif is None else str(mif)))
     return " ".join(toks)
+
+
+def _wake_consistent(line):
+    """the requested wake-ups of the trace never lie after the model's due work (for this choice of
+    interface order); used only to choose between orders that reproduce the observation equally"""
+    out = _model_eval(line.replace("simh", "simdue", 1))
+    for part in out.split(" | "):
+        f = dict(x.split("=") for x in part.split(" ")[1:] if "=" in x)
+        if f.get("due", "-") != "-" and (f.get("wake", "-") == "-" or int(f["wake"]) > int(f["due"])):
+            return False
+    return True
 
 
 def model_input(pid, case_line, raw):
@@ -455,20 +473,23 @@ def model_input(pid, case_line, raw):
         return first
     obs = project(case_line, raw)
     try:
-        if _model_eval(first) == obs:
-            return first
-        best = (_common_prefix(_model_eval(first), obs), first)
-        for cand in itertools.product(*[list(itertools.permutations(o)) if 2 <= len(o) <= 3 else [tuple(o)] for o in orders]):
-            cand = [list(c) for c in cand]
-            if cand == orders:
-                continue
-            line = build_input(pid, h, its, cand)
+        cands = [orders] + [[list(c) for c in cand] for cand in itertools.product(
+            *[list(itertools.permutations(o)) if 2 <= len(o) <= 3 else [tuple(o)] for o in orders])
+            if [list(c) for c in cand] != orders]
+        best = None
+        matching = []
+        for cand in cands:
+            line = first if cand is orders else build_input(pid, h, its, cand)
             out = _model_eval(line)
             if out == obs:
-                return line
+                matching.append(line)
+                if _wake_consistent(line):
+                    return line
             n = _common_prefix(out, obs)
-            if n > best[0]:
+            if best is None or n > best[0]:
                 best = (n, line)
+        if matching:
+            return matching[0]
         return best[1]
     except Exception:
         return first
